@@ -369,6 +369,34 @@ def run(ctx, scratch):
                                   case=dict(n=c['n'], edges=c['E'], directed=True), expected=exp, observed=got,
                                   parallelize=True, threads=t, family=c['fam'], kind='oracle', directed=True)
 
+    # ---- cores on medium sparse graphs with many degree ties (heap layouts that small graphs never produce: a faulty
+    #      decrease_key / heapify order needs two tied neighbours in parent / child slots; about 1 % of such graphs at n = 20..40)
+    core_medium = 0
+    witness = [[2, 5, 6, 7], [6], [0, 4, 6], [4, 7], [2, 3, 5], [0, 4, 6, 7], [0, 1, 2, 5], [0, 3, 5]]
+    medium = [(8, sorted({(i, j) for i, row in enumerate(witness) for j in row}), 'core_witness_8')]
+    for _ in range(700 if quick else 6000):
+        n = rng.randint(12, 40)
+        m_edges = int(n * rng.choice([1.2, 1.5, 2.0, 2.5, 3.0]))
+        E = set()
+        while len(E) < m_edges:
+            i, j = rng.randrange(n), rng.randrange(n)
+            if i != j:
+                E.add((min(i, j), max(i, j)))
+        medium.append((n, gen.sym(sorted(E)), 'core_medium_sparse'))
+    with Impl(scratch) as impl:
+        for (n, E, fam) in medium:
+            adj = adj_sets(n, E)
+            _, exp = peeling(n, adj)
+            got = impl.call('c11', 'core', dict(m=mspec(n, E, 'int')), timeout=30)
+            ctx.traces += 1
+            core_medium += 1
+            ctx.count(fam, ('cm', n, tuple(E)), True)
+            if got != {'ok': {'ok': exp}} and got != {'ok': exp}:
+                ctx.violation('get_core_decomposition', 'labels are not the core numbers (peeling oracle) on a medium sparse graph',
+                              case=dict(n=n, edges=[e for e in E if e[0] < e[1]], dtype='int'), expected=exp, observed=got,
+                              family=fam, kind='oracle')
+    ctx.extra['core_medium_graphs'] = core_medium
+
     ctx.extra['c11'] = dict(graphs=len(cases), directed_graphs=len(tri_dir), clique_runs=clique_runs,
                             coefficient_undefined_skipped=coef_skipped, parallel_runs=par_runs,
                             thread_counts=[1] + threads, repeat=repeat,
